@@ -1,3 +1,184 @@
 (* Properties/C08.v — statements only. *)
-From Dnp3V Require Import Transport.Segment Transport.TransportProofs.
+From Dnp3V Require Import Transport.Segment Transport.TransportProofs Link.CrcProofs.
 Open Scope N_scope.
+
+(* Vocabulary (all defined in Transport/TransportProofs.v):
+   segs_of seq first cs    the (transport header, payload) pairs Writer::write produces for the chunks cs
+   seg_obs info s          the segment s as the link layer hands it up: LInfo info (header byte :: payload)
+   popped a                the assembler after Reader::pop: empty, frame id incremented mod 2^32
+   data_segments obs       the (frame info, header, payload) triples the transport reader takes from obs
+   complete_run run        first has FIR, every later segment has no FIR, the sequence number following its
+                           predecessor's and the same frame info; FIN on the last segment only
+   embed run mid           mid starts with the first and ends with the last segment of run, and the
+                           elements of mid not in run are broadcast frames without FIR (is_ignored)
+   sublist run l           run is a subsequence of l *)
+
+(* 1. the transport header byte and the sequence counter *)
+Theorem C08_tp_header_round_trip :
+  (forall b, b < 256 -> tp_to_u8 (tp_from_u8 b) = b) /\
+  (forall fin fir s, s < 64 ->
+     tp_from_u8 (tp_to_u8 {| t_fin := fin; t_fir := fir; t_seq := s |})
+     = {| t_fin := fin; t_fir := fir; t_seq := s |}).
+Proof. exact tp_header_round_trip. Qed.
+Print Assumptions C08_tp_header_round_trip.
+
+Theorem C08_seq_next_cycle : forall s, s < 64 ->
+  seq_next s < 64 /\ Nat.iter 64 seq_next s = s /\
+  forall k, (0 < k < 64)%nat -> Nat.iter k seq_next s <> s.
+Proof. exact seq_next_cycle. Qed.
+Print Assumptions C08_seq_next_cycle.
+
+(* 2. Writer::write = the link frames of the segments (FIR on the first, FIN on the last, consecutive
+   sequence numbers); no frame is refused by the formatter; the payloads concatenate to the fragment;
+   the writer's sequence number advances by the number of segments *)
+Theorem C08_write_fragment_frames : forall cfg dest seq fragment,
+  let segs := segs_of seq true (chunks 249 fragment) in
+  write_fragment cfg dest seq fragment =
+    (map (fun s => format_frame (data_header cfg dest) (tp_to_u8 (fst s) :: snd s)) segs,
+     Nat.iter (length segs) seq_next seq) /\
+  map (seg_frame cfg dest) segs =
+    map (fun s => Some (format_frame (data_header cfg dest) (tp_to_u8 (fst s) :: snd s))) segs /\
+  concat (map snd segs) = fragment.
+Proof. exact write_fragment_frames. Qed.
+Print Assumptions C08_write_fragment_frames.
+
+(* the assembler, in ANY state (empty, in the middle of anything, holding a completed fragment), fed the
+   segments of a fragment of 1 .. capacity bytes from a non-broadcast source, ends up holding exactly
+   this fragment *)
+Theorem C08_segment_reassemble : forall a info seq0 fragment,
+  fi_broadcast info = None -> fragment <> [] -> (length fragment <= a_cap a)%nat ->
+  feed_segs a info (segs_of seq0 true (chunks 249 fragment)) =
+  {| a_state := AComplete {| fg_id := a_frame_id a; fg_source := fi_source info; fg_broadcast := None |} fragment;
+     a_frame_id := (a_frame_id a + 1) mod 4294967296;
+     a_cap := a_cap a |}.
+Proof. exact segment_reassemble. Qed.
+Print Assumptions C08_segment_reassemble.
+
+(* the same through Reader::read / pop, on the header bytes as transmitted *)
+Theorem C08_segments_delivered : forall a info seq0 fragment rest,
+  fi_broadcast info = None -> fi_type info = FData -> seq0 < 64 ->
+  fragment <> [] -> (length fragment <= a_cap a)%nat ->
+  treader_obs a (map (seg_obs info) (segs_of seq0 true (chunks 249 fragment)) ++ rest) =
+  TFrag {| fg_id := a_frame_id a; fg_source := fi_source info; fg_broadcast := None |} fragment
+  :: treader_obs (popped a) rest.
+Proof. exact segments_delivered. Qed.
+Print Assumptions C08_segments_delivered.
+
+(* a damaged stream costs only the affected fragments: after ANY sequence of link-layer deliveries
+   without a link error, the next fragment that arrives as segmented is delivered intact *)
+Theorem C08_next_fragment_intact : forall a junk info seq0 fragment rest,
+  no_link_error junk ->
+  fi_broadcast info = None -> fi_type info = FData -> seq0 < 64 ->
+  fragment <> [] -> (length fragment <= a_cap a)%nat ->
+  treader_obs a (junk ++ map (seg_obs info) (segs_of seq0 true (chunks 249 fragment)) ++ rest) =
+  treader_obs a junk ++
+  TFrag {| fg_id := a_frame_id (treader_after a junk); fg_source := fi_source info; fg_broadcast := None |}
+        fragment
+  :: treader_obs (popped (treader_after a junk)) rest.
+Proof. exact next_fragment_intact. Qed.
+Print Assumptions C08_next_fragment_intact.
+
+(* 3. whatever the link layer delivers, a delivered fragment is the concatenation of a complete
+   well-formed run of segments from one source that occurs in the input in this order, and fits the
+   buffer.  Window form: the run lies in a contiguous window of the data segments and only ignored
+   segments (broadcast frames without FIR) are skipped inside the window. *)
+Theorem C08_delivered_is_run_window : forall cap obs fi buf,
+  In (TFrag fi buf) (treader_obs (assembler_init cap) obs) ->
+  exists pre mid post run,
+    data_segments obs = pre ++ mid ++ post /\ embed run mid /\
+    complete_run run /\
+    buf = concat (map seg_data run) /\ (length buf <= cap)%nat /\
+    exists i, Forall (fun s => seg_info s = i) run /\
+              fg_source fi = fi_source i /\ fg_broadcast fi = fi_broadcast i /\
+              (fi_broadcast i <> None -> length run = 1%nat).
+Proof. exact delivered_is_run_window. Qed.
+Print Assumptions C08_delivered_is_run_window.
+
+Theorem C08_delivered_is_run : forall cap obs fi buf,
+  In (TFrag fi buf) (treader_obs (assembler_init cap) obs) ->
+  exists run,
+    sublist run (data_segments obs) /\
+    complete_run run /\
+    buf = concat (map seg_data run) /\ (length buf <= cap)%nat /\
+    exists i, Forall (fun s => seg_info s = i) run /\
+              fg_source fi = fi_source i /\ fg_broadcast fi = fi_broadcast i /\
+              (fi_broadcast i <> None -> length run = 1%nat).
+Proof. exact delivered_is_run. Qed.
+Print Assumptions C08_delivered_is_run.
+
+(* what complete_run says about FIR and FIN, spelled out *)
+Theorem C08_complete_run_shape : forall run, complete_run run ->
+  exists first rest body lst,
+    run = first :: rest /\ run = body ++ [lst] /\
+    t_fir (seg_hdr first) = true /\ Forall (fun s => t_fir (seg_hdr s) = false) rest /\
+    t_fin (seg_hdr lst) = true /\ Forall (fun s => t_fin (seg_hdr s) = false) body.
+Proof. exact complete_run_shape. Qed.
+Print Assumptions C08_complete_run_shape.
+
+(* 4. the ids of the delivered fragments are 0, 1, 2, ... (mod 2^32) in order *)
+Theorem C08_frame_ids_consecutive : forall cap obs,
+  frag_ids (treader_obs (assembler_init cap) obs) =
+  map (fun k => N.of_nat k mod 4294967296)
+      (seq 0 (length (frag_ids (treader_obs (assembler_init cap) obs)))).
+Proof. exact frame_ids_consecutive. Qed.
+Print Assumptions C08_frame_ids_consecutive.
+
+(* 5. writer -> bytes -> link parser -> link layer -> transport reader: a fragment of 1 .. frag bytes
+   written to the address of a station of the opposite type arrives, in one physical read, as the same
+   bytes from the writer's address; for both parser error modes and both read modes.  The read
+   buffer (read_buffer_size frag) is large enough for all the frames: no overflow hypothesis is needed. *)
+Theorem C08_write_read_round_trip : forall mode rm frag lcfg wcfg seq fragment,
+  w_type wcfg <> l_type lcfg -> w_addr wcfg < 65520 -> l_addr lcfg < 65520 ->
+  seq < 64 -> bytes_ok fragment -> fragment <> [] -> (length fragment <= frag)%nat ->
+  run_treader mode rm frag lcfg [concat (fst (write_fragment wcfg (l_addr lcfg) seq fragment))]
+  = [TFrag {| fg_id := 0; fg_source := w_addr wcfg; fg_broadcast := None |} fragment].
+Proof. exact write_read_round_trip. Qed.
+Print Assumptions C08_write_read_round_trip.
+
+(* ---------- non-vacuity ------------------------------------------------------------------------- *)
+
+(* a 250-byte fragment written with the sequence number at its maximum: two segments, the number wraps *)
+Example C08_segs_instance :
+  segs_of 63 true (chunks 249 (repeat 7 250)) =
+  [({| t_fin := false; t_fir := true; t_seq := 63 |}, repeat 7 249);
+   ({| t_fin := true; t_fir := false; t_seq := 0 |}, [7])].
+Proof. vm_compute. reflexivity. Qed.
+
+(* an empty fragment produces no frame at all: the lower bound "1 byte" of the property is real *)
+Example C08_empty_fragment cfg dest seq : write_fragment cfg dest seq [] = ([], seq).
+Proof. reflexivity. Qed.
+
+Definition ex_uni : frame_info := {| fi_source := 1; fi_broadcast := None; fi_type := FData |}.
+Definition ex_bc : frame_info := {| fi_source := 1; fi_broadcast := Some BOptional; fi_type := FData |}.
+
+(* the skipped elements of C08_delivered_is_run_window exist: a broadcast segment without FIR between
+   the two segments of a unicast fragment is ignored and the fragment is still delivered *)
+Example C08_ignored_inside_run :
+  treader_obs (assembler_init 10)
+    [LInfo ex_uni [64 + 5; 1]; LInfo ex_bc [9; 99]; LInfo ex_uni [128 + 6; 2]]
+  = [TFrag {| fg_id := 0; fg_source := 1; fg_broadcast := None |} [1; 2]].
+Proof. vm_compute. reflexivity. Qed.
+
+(* a skipped sequence number, a repeated segment, a missing FIR, a second source, an overflow: nothing
+   is delivered; the well-formed fragment that follows is *)
+Example C08_rejections :
+  treader_obs (assembler_init 3)
+    [LInfo ex_uni [64 + 5; 1]; LInfo ex_uni [128 + 7; 2];                  (* 5 then 7 *)
+     LInfo ex_uni [64 + 5; 1]; LInfo ex_uni [5; 1]; LInfo ex_uni [128 + 6; 2]; (* 5, 5 *)
+     LInfo ex_uni [128 + 6; 2];                                           (* no FIR *)
+     LInfo ex_uni [64 + 5; 1];
+     LInfo {| fi_source := 2; fi_broadcast := None; fi_type := FData |} [128 + 6; 2];
+     LInfo ex_uni [64 + 5; 1; 2]; LInfo ex_uni [128 + 6; 3; 4];           (* 4 bytes > 3 *)
+     LInfo ex_bc [64 + 1; 1]; LInfo ex_bc [128 + 2; 2];                   (* broadcast in two segments *)
+     LInfo ex_uni [64 + 63; 1; 2]; LInfo ex_uni [128 + 0; 3]]
+  = [TFrag {| fg_id := 0; fg_source := 1; fg_broadcast := None |} [1; 2; 3]].
+Proof. vm_compute. reflexivity. Qed.
+
+(* the end-to-end theorem on a concrete case: master 1 writes C0 01 3C 02 06 to outstation 1024 *)
+Example C08_round_trip_instance :
+  run_treader Discard Stream 2048 {| l_type := Outstation; l_self := false; l_addr := 1024 |}
+    [concat (fst (write_fragment {| w_type := Master; w_addr := 1 |} 1024 0 [192; 1; 60; 2; 6]))]
+  = [TFrag {| fg_id := 0; fg_source := 1; fg_broadcast := None |} [192; 1; 60; 2; 6]]
+  /\ fst (write_fragment {| w_type := Master; w_addr := 1 |} 1024 0 [192; 1; 60; 2; 6])
+     = [[5; 100; 11; 196; 0; 4; 1; 0; 202; 138; 192; 192; 1; 60; 2; 6; 84; 224]].
+Proof. vm_compute. split; reflexivity. Qed.
